@@ -10,7 +10,7 @@ class C05(RecorderProp):
             'with the same program; spy cassette log create/save/abort; non-trivial = a run that opened a recording scope')
     OPTS = dict(ALL_OPTS, play_ratio=0.0, missing_play=False, cassettes=['memory', 'memory', 'file', 's3'], runs=(1, 3),
                 data=False)   # play_data answers differently while recording and replaying: not 'the same deterministic code'
-    N = {'quick': 400, 'thorough': 8000}
+    N = {'quick': 2500, 'thorough': 25000}
 
     def gen_one(self, rng, tier):
         case = rg.gen_history(rng, self.OPTS)
